@@ -42,6 +42,7 @@ def run(ctx, rep):
     e1_ratio.run(facts, rep)
     e1_ratio.check_ff(facts, rep)
     e1_ratio.check_mul_cancels_first(facts, rep)
+    e1_ratio.check_quot_rem_pairs(facts, rep)
     e2_float.apply(facts, rep, scope, 'C14', floor_scope=100)
     opvariants.run(facts, rep, SCALARS, 130)
     rep.rule('E20', e20_quadint.__doc__.strip().split('\n')[0])
